@@ -8,7 +8,7 @@
    after having seen the calls h (None = nil).  Trees are identified with what Go holds in memory by
    the exporter of harness/c18.go (checked on every run against the real Walk). *)
 From Coq Require Import List Arith Bool Permutation.
-From Verif Require Import Walk.Schema Walk.Model Walk.Trace Gen.WalkSchema Walk.Harness Walk.Proofs.
+From Verif Require Import Walk.Schema Walk.Model Walk.Trace Walk.Prune Gen.WalkSchema Walk.Harness Walk.Proofs.
 Import ListNotations.
 
 (* Finite check on the generated file: for every node type the fields visited by its switch arm are
@@ -40,6 +40,17 @@ Theorem walk_no_panic :
 Proof. exact walk_no_panic_proof. Qed.
 Print Assumptions walk_no_panic.
 
+(* What "the nodes of the tree" means: the paths at which a subtree sits that is not a wrapper element
+   (ClassElement, which Walk handles inline and never passes to Enter).  Scope tables and Var.Link are
+   not fields of the schema, so nothing reachable only through them is a node. *)
+Theorem all_nodes_spec :
+  forall (t : tree) (q : path),
+    well_typed gen_spec t = true ->
+    (In q (all_nodes gen_spec t) <->
+     exists c, subtree_at t q = Some c /\ is_wrapper gen_spec (tree_ty c) = false).
+Proof. exact all_nodes_spec_proof. Qed.
+Print Assumptions all_nodes_spec.
+
 (* Descend everywhere: the nodes passed to Enter are exactly the nodes of the tree, each once. *)
 Theorem walk_visits_each_once :
   forall (V : Type) (enter : list (event V) -> V -> path -> ty -> flavour -> option V) (v0 : V) (t : tree),
@@ -67,3 +78,71 @@ Theorem walk_nothing_else :
     In e (fst (walk_p gen_spec V enter v0 t)) -> In (e_path e) (all_nodes gen_spec t).
 Proof. exact walk_nothing_else_proof. Qed.
 Print Assumptions walk_nothing_else.
+
+(* Any visitor: a child never before its parent.  When a node is passed to Enter, every node of the
+   tree that lies above it has been passed to Enter earlier and has not been exited yet. *)
+Theorem walk_parent_first :
+  forall (V : Type) (enter : list (event V) -> V -> path -> ty -> flavour -> option V) (v0 : V) (t : tree)
+         pre e post,
+    well_typed gen_spec t = true ->
+    fst (walk_p gen_spec V enter v0 t) = pre ++ e :: post -> e_k e = KEnter ->
+    forall a, In a (all_nodes gen_spec t) -> sprefix a (e_path e) ->
+      (exists e', In e' pre /\ e_k e' = KEnter /\ e_path e' = a) /\
+      (forall e', In e' pre -> e_k e' = KExit -> e_path e' <> a).
+Proof. exact walk_parent_first_proof. Qed.
+Print Assumptions walk_parent_first.
+
+(* Any visitor (even one whose answers depend on everything it has seen): no node is entered twice,
+   and a node is entered iff it is a node of the tree all of whose ancestors were exited, i.e. (by
+   walk_enter_exit_balanced) their Enter returned a visitor.  A nil-returning Enter removes exactly
+   the subtree below that node. *)
+Theorem walk_prunes_exactly :
+  forall (V : Type) (enter : list (event V) -> V -> path -> ty -> flavour -> option V) (v0 : V) (t : tree),
+    well_typed gen_spec t = true ->
+    let evs := fst (walk_p gen_spec V enter v0 t) in
+    NoDup (entered V evs) /\
+    forall q, In q (entered V evs) <->
+              In q (all_nodes gen_spec t) /\
+              (forall a, In a (all_nodes gen_spec t) -> sprefix a q -> In a (exited V evs)).
+Proof. exact walk_prunes_exactly_proof. Qed.
+Print Assumptions walk_prunes_exactly.
+
+(* Stop-set visitors (Enter returns nil exactly on the nodes of an arbitrary set): the entered nodes
+   are, up to order, the nodes of the tree that have no stopped proper ancestor. *)
+Theorem walk_prunes_stop_set :
+  forall (V : Type) (stop : path -> bool) (v0 : V) (t : tree),
+    well_typed gen_spec t = true ->
+    Permutation (entered V (fst (walk_p gen_spec V (stop_enter V stop) v0 t)))
+                (nodes_not_below_stopped stop t).
+Proof. exact walk_prunes_stop_set_proof. Qed.
+Print Assumptions walk_prunes_stop_set.
+
+(* All trees, any visitor: an event at path p is about the subtree at p and reports its type; a struct
+   value is handed over exactly for the leaves the tree stores by value; never a typed nil. *)
+Theorem walk_identity :
+  forall (V : Type) (enter : list (event V) -> V -> path -> ty -> flavour -> option V) (v0 : V) (t : tree) e,
+    In e (fst (walk_p gen_spec V enter v0 t)) ->
+    (exists c, subtree_at t (e_path e) = Some c /\ tree_ty c = e_ty e) /\
+    ((by_value gen_spec (e_ty e) = false /\ (e_fl e = Orig \/ e_fl e = Copy)) \/
+     (by_value gen_spec (e_ty e) = true /\ e_fl e = ByVal)).
+Proof. exact walk_identity_proof. Qed.
+Print Assumptions walk_identity.
+
+(* "Nothing is visited that is not part of the tree", read for ADDRESSES, is false of the code: the
+   Field of a class element (and the ClassElementName / PropertyName / LiteralExpr embedded in it) is
+   passed to the visitor as the address of the loop variable of `for _, item := range n.List`.
+   Witness: class A { #p = x; m(){} }. *)
+Theorem walk_hands_over_tree_addresses_refuted :
+  exists t e, well_typed gen_spec t = true /\ In e (fst (walk_p gen_spec nat descend_all 0 t)) /\
+              e_k e = KEnter /\ e_ty e = T_Field /\ e_fl e = Copy.
+Proof. exact walk_hands_over_copies_witness. Qed.
+Print Assumptions walk_hands_over_tree_addresses_refuted.
+
+(* ... and that is the only place: a copy is handed over only at or below a ClassElement. *)
+Theorem walk_hands_over_tree_addresses_partial :
+  forall (V : Type) (enter : list (event V) -> V -> path -> ty -> flavour -> option V) (v0 : V) (t : tree) e,
+    well_typed gen_spec t = true ->
+    In e (fst (walk_p gen_spec V enter v0 t)) -> e_fl e = Copy ->
+    exists q c, subtree_at t q = Some c /\ tree_ty c = T_ClassElement /\ prefix q (e_path e).
+Proof. exact walk_copies_only_in_class_elements_proof. Qed.
+Print Assumptions walk_hands_over_tree_addresses_partial.
